@@ -188,6 +188,7 @@ type Engine struct {
 	events  []pendingEvt
 	budget  int
 	failed  bool
+	cycleSamples [][]string
 	initRefused bool
 	connClosed  bool
 	start   time.Time
@@ -305,8 +306,15 @@ func (e *Engine) drain() {
 // stepOnce performs one scheduler step at quiescence; false when nothing is runnable.
 func (e *Engine) stepOnce() bool {
 	synctest.Wait()
+	// a runaway run is sampled three times before the budget runs out; the functions present in
+	// every sample are the stable part of the loop / recursion (a single sample catches the loop at
+	// an arbitrary depth of its body)
+	if e.budget == 9000 || e.budget == 7001 || e.budget == 5003 || e.budget == 3500 || e.budget == 2002 || e.budget == 1100 || e.budget == 501 {
+		e.cycleSamples = append(e.cycleSamples, deepestFuncs())
+	}
 	if e.budget <= 0 {
-		e.fail(OutBudget, "scheduler step budget exhausted; "+deepestCycle()+" at "+strings.Join(simrt.RunnableSites(), ","))
+		e.cycleSamples = append(e.cycleSamples, deepestFuncs())
+		e.fail(OutBudget, "scheduler step budget exhausted; "+stableCycle(e.cycleSamples)+" at "+strings.Join(simrt.RunnableSites(), ","))
 		return false
 	}
 	if !simrt.Step() {
@@ -509,9 +517,10 @@ func (e *Engine) exec(i int, op *Op) {
 		simfs.WriteFile(Abs(op.Path), op.Data)
 		if cur, isOpen := e.Open[op.Path]; isOpen {
 			e.Saved[op.Path] = string(cur) == string(op.Data)
-			if !e.Saved[op.Path] {
-				e.External[op.Path] = true
-			}
+			// the world wrote the file of an open document: from here until the next save / close the
+			// relation between buffer and disk was not produced by the editor (even if the bytes
+			// happen to coincide), and neither clause of C08 describes it
+			e.External[op.Path] = true
 		}
 		if !op.NoEvt {
 			if existed {
@@ -876,32 +885,94 @@ var stackFrameRe = regexp.MustCompile(`(?m)^(luahelper-lsp/[^\s(]+(?:\([^)]*\))?
 // deepestCycle names the functions of the deepest server stack (the runaway recursion when a
 // run exhausts its step budget): the sorted set of distinct functions among its innermost 80
 // server frames.
-func deepestCycle() string {
+// deepestFuncs returns the server functions of the deepest server stack, outermost first.  For
+// a very deep stack (runaway recursion) only the innermost 80 frames are available and the result
+// is their de-duplicated set, sorted and prefixed with "~" (the marker of a recursion sample).
+func deepestFuncs() []string {
 	buf := make([]byte, 8<<20)
 	buf = buf[:runtime.Stack(buf, true)]
 	best := ""
 	bestN := 0
+	deep := false
 	for _, g := range strings.Split(string(buf), "\n\n") {
 		n := strings.Count(g, "\n")
+		elided := strings.Contains(g, "frames elided")
+		if elided {
+			n = 1 << 30
+		}
 		if strings.Contains(g, "luahelper-lsp/") && n > bestN {
-			best, bestN = g, n
-		}
-		if strings.Contains(g, "frames elided") {
-			best, bestN = g, 1<<30
+			best, bestN, deep = g, n, elided || n > 400
 		}
 	}
-	seen := map[string]bool{}
 	var fns []string
-	for i, m := range stackFrameRe.FindAllStringSubmatch(best, 80) {
-		if i >= 80 {
-			break
+	for _, m := range stackFrameRe.FindAllStringSubmatch(best, -1) {
+		fns = append(fns, m[1][strings.LastIndex(m[1], "/")+1:])
+	}
+	if deep {
+		if len(fns) > 80 {
+			fns = fns[:80]
 		}
-		f := m[1][strings.LastIndex(m[1], "/")+1:]
-		if !seen[f] {
-			seen[f] = true
-			fns = append(fns, f)
+		seen := map[string]bool{}
+		var set []string
+		for _, f := range fns {
+			if !seen[f] {
+				seen[f] = true
+				set = append(set, f)
+			}
+		}
+		sort.Strings(set)
+		return append([]string{"~"}, set...)
+	}
+	// outermost first
+	for i, j := 0, len(fns)-1; i < j; i, j = i+1, j-1 {
+		fns[i], fns[j] = fns[j], fns[i]
+	}
+	return fns
+}
+
+// stableCycle combines the samples: for recursion samples the functions present in every
+// sample; for shallow stacks (a loop) the common outermost prefix, i.e. the path down to the
+// function that contains the loop.
+func stableCycle(samples [][]string) string {
+	if len(samples) == 0 {
+		return "cycle{}"
+	}
+	recursion := false
+	for _, s := range samples {
+		if len(s) > 0 && s[0] == "~" {
+			recursion = true
 		}
 	}
-	sort.Strings(fns)
-	return "cycle{" + strings.Join(fns, ",") + "}"
+	if recursion {
+		count := map[string]int{}
+		n := 0
+		for _, s := range samples {
+			if len(s) > 0 && s[0] == "~" {
+				n++
+				for _, f := range s[1:] {
+					count[f]++
+				}
+			}
+		}
+		var fns []string
+		for f, c := range count {
+			if c == n {
+				fns = append(fns, f)
+			}
+		}
+		sort.Strings(fns)
+		return "cycle{" + strings.Join(fns, ",") + "}"
+	}
+	prefix := samples[0]
+	for _, s := range samples[1:] {
+		k := 0
+		for k < len(prefix) && k < len(s) && prefix[k] == s[k] {
+			k++
+		}
+		prefix = prefix[:k]
+	}
+	if len(prefix) > 4 {
+		prefix = prefix[len(prefix)-4:]
+	}
+	return "loop-under{" + strings.Join(prefix, " > ") + "}"
 }
